@@ -190,7 +190,7 @@ let () =
 (* the tree-entry mode is no part of the model's entry record: the driver packs it into the (opaque) path
    number, e_name = 8 * path + mode, for the fine correspondence (so the model carries it along untouched and
    entry_eqb compares it), and strips it for the property oracles, which are about paths and content hashes *)
-let mode_names = [| "100644"; "100755"; "120000"; "100664"; "160000"; "?"; "?"; "?" |]
+let mode_names = [| "100644"; "100755"; "120000"; "100664"; "160000"; "-"; "?"; "?" |]
 let show_side = function
   | None -> "-"
   | Some e -> Printf.sprintf "%d/%s:%s" (int_of_n e.e_name / 8) mode_names.(int_of_n e.e_name mod 8)
@@ -241,7 +241,7 @@ let () =
       | "a" -> (None, Some (mk (a 0) (a 1) (m 2)))
       | "d" -> (Some (mk (a 0) (a 1) (m 2)), None)
       | "m" -> (Some (mk (a 0) (a 1) (m 3)), Some (mk (a 0) (a 2) (m 4)))
-      | _ -> (None, None)) (args (field "changes" c)) in
+      | _ -> (None, None)) (args (match field_opt "changes" c with Some f -> f | None -> field "bigchanges" c)) in
     let n_changes = List.length inp in
     tick "input";
     (* ----- oracle tables ----- *)
@@ -388,7 +388,9 @@ let () =
                 incr bad;
                 if !first_bad = "" then
                   first_bad := Printf.sprintf "hash %s: %d change(s) in, %d out carry it; out: %s" (String.concat "." (String.split_on_char ',' k))
-                                 (List.length !i) (List.length !o) (show_changes (List.rev !o))
+                                 (List.length !i) (List.length !o) (show_changes (List.map (fun (f, t) ->
+                                    let up = function None -> None | Some e -> Some { e with e_name = n_of_int (8 * int_of_n e.e_name + 5) } in
+                                    (up f, up t)) (List.rev !o)))
               end) (List.rev !keys);
             if !bad > 0 then
               propfail id (Printf.sprintf "identical content missed or over-reported: the number of exact renames differs from min(#added,#deleted) for %d hash(es) (%d changes); %s"
